@@ -651,7 +651,7 @@ def binop(I, op, a, b):
     if isinstance(a, str) and isinstance(b, str) and t is ast.Add:
         return a + b
     if isinstance(a, str) and t is ast.Mod:
-        return "<message>"
+        return _unknown_str()                # "...%s" % x: content not tracked (never compared / used as a key)
     raise Unsupported(f"binary {t.__name__} on {type(a).__name__}, {type(b).__name__}")
 
 
@@ -1215,6 +1215,11 @@ def _card_arr(I, arr, depth):
 
 
 # ---------------------------------------------------------------------- builtins
+def _unknown_str():
+    from .interp import UnknownStr
+    return UnknownStr()
+
+
 def make_builtins(I):
     _CUR[0] = I
     def b_len(x):
@@ -1536,7 +1541,7 @@ def make_builtins(I):
         "iter": lambda x: x if isinstance(x, IterVal) else IterVal(x), "next": b_next,
         "reversed": lambda x: list(reversed(iterate(I, x))), "dict": lambda x=(), **kw: {**({hashable(k): v for k, v in (x.items() if isinstance(x, dict) else iterate(I, x))}), **kw},
         "getattr": b_getattr, "hasattr": lambda o, n: _has(I, o, n), "setattr": lambda o, n, v: setattr_(I, o, n, v), "print": lambda *a, **k: None, "id": lambda o: id(o),
-        "type": b_type, "str": lambda x="": "<str>" if not isinstance(x, str) else x, "repr": lambda x: "<repr>",
+        "type": b_type, "str": lambda x="": (x if isinstance(x, str) else str(x) if isinstance(x, (int, float, bool)) or x is None else _unknown_str()), "repr": lambda x: (repr(x) if isinstance(x, (int, str, float, bool)) or x is None else _unknown_str()),
         "callable": lambda x: isinstance(x, (FuncVal, ClassVal, Builtin, PartialVal, ExternalVal)),
         "issubclass": lambda a, b: I.repo.is_subclass(a.ci, b.ci) if isinstance(a, ClassVal) and isinstance(b, ClassVal) else (
             (a.dotted, b.dotted) in {("numpy.float64", "numpy.floating"), ("numpy.float32", "numpy.floating"), ("numpy.int64", "numpy.integer"), ("numpy.complex128", "numpy.complexfloating")}
